@@ -23,7 +23,7 @@ Traces == ndJsonDeserialize(IOEnv.TRACE_FILE)
 VARIABLES tid, l, bad, drift
 tvars == <<tid, l, bad, drift>>
 
-DescOf(t) == [kinds |-> ToSet(t.d.kinds), shape |-> t.d.shape, vals |-> t.d.vals, viol |-> t.d.viol,
+DescOf(t) == [kinds |-> ToSet(t.d.kinds), shape |-> t.d.shape, vals |-> t.d.vals, evs |-> t.d.evs, viol |-> t.d.viol,
               pos |-> [k |-> t.d.pos.k, e |-> t.d.pos.e]]
 Rec(t, i) == Traces[t].steps[i]
 FailClause(name, ok) == IF ok THEN {} ELSE {name}
